@@ -4,7 +4,7 @@ import json,subprocess
 props=[json.loads(l) for l in open('/verif/properties.jsonl')]
 ids=[p['id'] for p in props]
 T={
- "C01":("differential vs denotational language model (R1); two bounded-exhaustive scopes (small ASTs x flags; nested quantifiers over macro atoms) + seeded random ASTs with shrinking","4 C01",
+ "C01":("differential vs denotational language model (R1); two bounded-exhaustive scopes (small ASTs x flags; nested quantifiers over macro atoms) + seeded random ASTs with shrinking (+ structure-aware libFuzzer target with R1 as in-target oracle in thorough)","4 C01",
         "is_match is compared with an order-independent language-membership model on every AST of size <=4 (quick) / <=5 (thorough) over a 3-letter alphabet x all short inputs x all subsets of i,m,s, and on seeded random structured patterns; a mismatch is shrunk and reported unless it is the listed ForceProgress / fixed-loop-backref finding",
         "trusts the R1 model (harness/src/oracle_lang.rs) and the R3/R4 character data; explores patterns <= ~20 nodes and inputs <= 8 characters"),
  "C02":("differential vs ordered-choice reference matcher (R2) and R1 match relation; seeded random ASTs with shrinking","4 C02",
@@ -28,7 +28,7 @@ T={
  "C12":("differential vs R1/R2 with the anchor and dot rules; exhaustive inputs over {a,b,LF,CR} for all small anchor/dot ASTs + seeded random","4 C12",
         "is_match and span lists for patterns with ^, $ and . in arbitrary positions under the four m/s combinations",
         "same trust as C01/C02"),
- "C16":("differential vs R1 nullability (does the language contain the empty string); two bounded-exhaustive scopes + seeded random ASTs, half of them nullable","4 C16",
+ "C16":("differential vs R1 nullability (does the language contain the empty string); two bounded-exhaustive scopes + seeded random ASTs, half of them nullable (+ structure-aware libFuzzer target with R1 as in-target oracle in thorough)","4 C16",
         "Err(MatchesEmptyString) from replace_all/analyze/tokenize must coincide with the oracle's answer; accepted regexes must never report a zero-length match",
         "trusts R1; patterns where the two capture readings disagree are not judged"),
  "C19":("differential vs R1 (all match paths with capture environments) and R2; multi-digit reference parsing checked behaviourally","4 C19",
